@@ -99,6 +99,8 @@ def check(ctx, rep):
     rep.rule("R17l", "the content, condition, attributes and omit-tag commands treat the value of their expression as TAL prescribes - nothing, "
              "default, and real values including 0, the empty string and empty sequences: each handler is evaluated by the walker on "
              "representative values and the interpreter's registers are compared", floor=3)
+    rep.rule("R17p", "in the path walk the no-call switch is read only after the loop over the elements: intermediate elements are always "
+             "resolved, nocall: / exists: hold back the final value only", floor=1)
     rep.rule("R17o", "a metal:fill-slot fills the nearest enclosing metal:use-macro (compiler evaluated with nested use-macro elements open)", floor=1)
     rep.rule("R17n", "the slot fillers of a metal:use-macro are gone once its expansion has returned: the register popProgram() restores is cleared "
              "right after the restore", floor=1)
@@ -580,6 +582,7 @@ def check(ctx, rep):
 
     # ------------------------------------------------------------------ R17k
     tales_evaluation_obligations(ctx, rep, "R17k", tales)
+    intermediate_call_obligations(ctx, rep, "R17p", tales)
 
     # ------------------------------------------------------------------ R17l
     command_evaluation_obligations(ctx, rep, "R17l", mod, tales)
@@ -951,6 +954,33 @@ def fill_slot_owner_obligations(ctx, rep, rule, mod):
     rep.add(rule, f"{f.qualname}: a fill-slot belongs to the nearest enclosing use-macro [{n} of {len(stacks)} evaluated]", not problems and n >= 2, ctx.where(f),
             "; ".join(problems[:2]) if problems else ("" if n >= 2 else "the walker could not follow the search through the open tags"),
             key=f"{rule}|fillslot", nontrivial=n > 0)
+
+
+
+def intermediate_call_obligations(ctx, rep, rule, tales):
+    """nocall: / exists: stop the *final* value of a path from being called; every element on the way is resolved (a callable or a
+    context variable in the middle of a path is called to get at the next element).  In the path walk the no-call switch is therefore
+    read only after the loop over the elements - never inside it, and it is not handed to what the loop calls."""
+    C = tales.classes.get("Context")
+    f = C.methods.get("traversePath") if C else None
+    if f is None:
+        rep.fail(rule, "Context.traversePath", detail="path walk not found")
+        return
+    sw = [p for p in f.params if "call" in p.lower()]
+    loops = [n for n in ast.walk(f.node) if isinstance(n, (ast.For, ast.While))]
+    if not sw or not loops:
+        rep.fail(rule, f.qualname, ctx.where(f), "no-call switch or element loop not found")
+        return
+    bad = []
+    for lp in loops:
+        for b in lp.body:
+            for x in ast.walk(b):
+                if isinstance(x, ast.Name) and x.id in sw and isinstance(x.ctx, ast.Load):
+                    bad.append(x)
+    rep.add(rule, f"{f.qualname}: `{sw[0]}` governs the final value only", not bad, ctx.where(f, bad[0]) if bad else ctx.where(f),
+            "" if not bad else f"`{sw[0]}` is used inside the loop over the path elements: with nocall: / exists: a callable in the middle of a path "
+            "(handler/getentry/..., a context variable) is then not resolved, the next element is looked up on the function object and the path 'does not exist'",
+            key=f"{rule}|traversePath")
 
 
 # ---------------------------------------------------------------------------------------------- R17l
